@@ -42,6 +42,10 @@ func reportBounds(c *Ctx, rule string, fns []*ssa.Function, axioms func(bc *boun
 			disc := fmt.Sprintf("%s#%d", desc, count[desc])
 			if s.Proved {
 				c.OK(rule, fnName(fn), disc, instrPos(s.Ins), "in bounds on every path")
+			} else if pv := parserVerdict(p); pv != nil && fn == p.Func("valid", "ParseValidNameKV") && pv.safe[s.Ins] {
+				// the difference-constraint prover does not see it, but the parser's complete table does:
+				// the expression was evaluated in range on every skeleton of a rule text (C14-PARSE)
+				c.OK(rule, fnName(fn), disc, instrPos(s.Ins), "in range for every rule text: evaluated on every text skeleton by the parser's table (C14-PARSE)")
 			} else {
 				c.Bad(rule, fnName(fn), disc, instrPos(s.Ins), "not proved in bounds: "+s.Why+" — a rule text / input reaching this expression with the unguarded shape panics")
 			}
